@@ -9,7 +9,14 @@ for d in sorted(glob.glob('seeded/%s/m*'%pat)):
     res=open(d+'/result.txt').read()
     caught=('VIOLATION' in res or 'violation(s)' in res) and 'DOES NOT APPLY' not in res
     sigs=re.findall(r'violation: ([^ ]+) ',res)
-    m['check_result']='caught' if caught else 'missed'
+    cb=d+'/caught_by.txt'
+    if not caught and os.path.exists(cb):
+        other=open(cb).read().strip()
+        m['check_result']='caught'
+        sigs=['(not by this property\'s check: reported by ./check %s, which owns the clause)'%other]
+        caught=True
+    else:
+        m['check_result']='caught' if caught else 'missed'
     m['detected_by']=('oracle signatures: '+', '.join(sorted(set(sigs)))[:400]) if sigs else ('correspondence / proof tie broken (no-failing-input-found)' if caught else 'not detected')
     m['confirmed']=open(d+'/confirmed.txt').read().strip().split('\n')[-1] if os.path.exists(d+'/confirmed.txt') else 'unknown'
     m['what_i_ran']="lib/seedconfirm.sh (scratch worktree: demo passes unmodified; go build ./... and the package's existing tests with the change; demo fails with the change) and lib/seedtest.sh (./check %s quick with VERIF_REPO = scratch worktree carrying the change)"%d.split('/')[1]
